@@ -6,7 +6,7 @@ use std::collections::{BTreeMap, HashMap, VecDeque};
 use std::hash::BuildHasherDefault;
 
 use gc_arena::{
-    Collect, DynamicRootSet, Gc, GcWeak, Lock, Mutation, RefLock, Rootable,
+    Collect, DynamicRootSet, Gc, GcWeak, Lock, Mutation, RefLock, Rootable, SliceWithHeader,
     collect::Trace,
     lock::OnceLock,
 };
@@ -19,16 +19,16 @@ pub type FixedHasher = BuildHasherDefault<std::collections::hash_map::DefaultHas
 // kinds
 
 macro_rules! any_ptr {
-    ($gc:lifetime; $( $V:ident => $T:ty ),* $(,)?) => {
-        /// A typed strong pointer to any client object.
+    ($gc:lifetime; $( $V:ident => $G:ty, $W:ty ),* $(,)?) => {
+        /// A strong pointer to any client object, in the representation it is stored in.
         #[derive(Collect, Clone, Copy)]
         #[collect(no_drop)]
-        pub enum AnyGc<$gc> { $( $V(Gc<$gc, $T>) ),* }
+        pub enum AnyGc<$gc> { $( $V($G) ),* }
 
-        /// A typed weak pointer to any client object.
+        /// A weak pointer to any client object.
         #[derive(Collect, Clone, Copy)]
         #[collect(no_drop)]
-        pub enum AnyWeak<$gc> { $( $V(GcWeak<$gc, $T>) ),* }
+        pub enum AnyWeak<$gc> { $( $V($W) ),* }
 
         impl<$gc> AnyGc<$gc> {
             pub fn downgrade(self) -> AnyWeak<$gc> {
@@ -71,16 +71,53 @@ macro_rules! any_ptr {
     };
 }
 
+pub type SliceElem<'gc> = Lock<Option<AnyGc<'gc>>>;
+type SP = gc_arena::slice::SlicePtrMeta;
+type HP = gc_arena::slice::SliceWithHeaderPtrMeta;
+type KFat<P> = gc_arena::gc::GcKind<gc_arena::gc::Fat, (), P>;
+type KThin<P> = gc_arena::gc::GcKind<gc_arena::gc::Thin, (), P>;
+
 any_ptr! { 'gc;
-    Node => RefLock<NodeBody<'gc>>,
-    Field => FieldNode<'gc>,
-    Raw => RawNode<'gc>,
-    Cell => Lock<CellBody<'gc>>,
-    Once => OnceLock<OnceBody<'gc>>,
-    Leaf => RefLock<LeafBody>,
-    LeafLock => Lock<u64>,
-    LeafStatic => LeafBody,
-    SetHolder => SetHolder<'gc>,
+    Node => Gc<'gc, RefLock<NodeBody<'gc>>>, GcWeak<'gc, RefLock<NodeBody<'gc>>>,
+    Field => Gc<'gc, FieldNode<'gc>>, GcWeak<'gc, FieldNode<'gc>>,
+    Raw => Gc<'gc, RawNode<'gc>>, GcWeak<'gc, RawNode<'gc>>,
+    Cell => Gc<'gc, Lock<CellBody<'gc>>>, GcWeak<'gc, Lock<CellBody<'gc>>>,
+    Once => Gc<'gc, OnceLock<OnceBody<'gc>>>, GcWeak<'gc, OnceLock<OnceBody<'gc>>>,
+    Leaf => Gc<'gc, RefLock<LeafBody>>, GcWeak<'gc, RefLock<LeafBody>>,
+    LeafLock => Gc<'gc, Lock<u64>>, GcWeak<'gc, Lock<u64>>,
+    LeafStatic => Gc<'gc, LeafBody>, GcWeak<'gc, LeafBody>,
+    SetHolder => Gc<'gc, SetHolder<'gc>>, GcWeak<'gc, SetHolder<'gc>>,
+    // dynamically sized objects carrying edges
+    Slice => Gc<'gc, [SliceElem<'gc>], KFat<SP>>, GcWeak<'gc, [SliceElem<'gc>], KFat<SP>>,
+    ThinSlice => Gc<'gc, [SliceElem<'gc>], KThin<SP>>, GcWeak<'gc, [SliceElem<'gc>], KThin<SP>>,
+    Swh => Gc<'gc, SliceWithHeader<SwhHead<'gc>, SliceElem<'gc>>, KFat<HP>>, GcWeak<'gc, SliceWithHeader<SwhHead<'gc>, SliceElem<'gc>>, KFat<HP>>,
+    ThinSwh => Gc<'gc, SliceWithHeader<SwhHead<'gc>, SliceElem<'gc>>, KThin<HP>>, GcWeak<'gc, SliceWithHeader<SwhHead<'gc>, SliceElem<'gc>>, KThin<HP>>,
+    // type-erased leaves of the layout family and of the builders (what they are is in the shadow)
+    Opaque => Gc<'gc, ()>, GcWeak<'gc, ()>,
+    // converted representations of a pointer to a Node (C19): erased, and unsized to a trait object
+    NodeE => Gc<'gc, ()>, GcWeak<'gc, ()>,
+    NodeD => Gc<'gc, dyn DynNode<'gc> + 'gc>, GcWeak<'gc, dyn DynNode<'gc> + 'gc>,
+}
+
+/// The trait Node pointers are unsized to.
+pub trait DynNode<'gc>: gc_arena::collect::DynCollect<'gc> {
+    fn dyn_id(&self) -> Id;
+}
+impl<'gc> DynNode<'gc> for RefLock<NodeBody<'gc>> {
+    fn dyn_id(&self) -> Id {
+        self.borrow().id
+    }
+}
+gc_arena::collect::dyn_collect!(dyn DynNode<'gc> + 'gc);
+
+/// Header of the edge-carrying slice-with-header kind.
+#[derive(Collect)]
+#[collect(no_drop)]
+pub struct SwhHead<'gc> {
+    pub id: Id,
+    pub tok: Tok,
+    pub fp: FaultPoint,
+    pub slot: Lock<Option<AnyGc<'gc>>>,
 }
 
 pub type Edge<'gc> = Option<AnyGc<'gc>>;
@@ -197,6 +234,7 @@ pub struct RootBody<'gc> {
     pub weak: Vec<WEdge<'gc>>,
     /// the root's own DynamicRootSet (set index 0 of the arena)
     pub set: DynamicRootSet<'gc>,
+    pub zst: gc_arena::zst_cache::ZstCache<'gc, 16>,
 }
 
 /// Two root types so that `map_root` / `try_map_root` really change the root type.
